@@ -10,6 +10,44 @@ NA_FIXED = {
 }
 
 
+LEVEL = {
+ "C01": ("Bounded model checking of inductive steps: (a) insert(x) makes query(x) true and (b) every later operation keeps a present element present, from an ARBITRARY valid state with symbolic hashers and RNG — so the claim covers histories of any length, for tables up to the stated sizes. Solver verdict over all inputs within the bounds; counterexamples are replayed natively.",
+         "Trusted: Kani/CBMC and z3/cvc5; the harness hashers (any function = symbolic words); engine-M container contracts (validated natively); state invariants listed in evidence.assumptions. Outside: larger tables, longer eviction chains."),
+ "C02": ("Inductive step with ghost counts decided by CBMC for all cell values/hash residues at w,d<=3: row sums = N and query_point(x) >= true(x) are preserved by add_n/merge/clear, and imply true<=est<=N, return value == query_point.",
+         "Counter overflow is assumed away (checked_add panics are out of the statement); hash words are 8-bit (only h mod w is consumed)."),
+ "C05": ("STRUCTURAL form: uniformity is a probability over the RNG; under the contract that rand's samplers are uniform on the requested range it is equivalent to per-step conditions (range of the draw, acceptance set, slot written, gap law in robust ranges), which CBMC decides for all RNG words, k<=3, i<=2^20.",
+         "rand's samplers trusted uniform; ln stubbed by a sound over-approximation; a different-but-also-uniform scheme would be flagged (accepted); the size of the documented gap-sampling bias for n>>4k is not decided."),
+ "C06": ("Algebraic decomposition decided per lemma on arbitrary states: merge = cell-wise OR/sum/max, add = merge with a singleton, QF union = enc(X u Y), cuckoo union adds class counts; observers are functions of the raw state, hence stream equivalence, commutativity, associativity, idempotence.",
+         "QF union only at 2 slots in Kani; cuckoo union at 4+4 slots and <=1 (thorough 2) evictions; engine-M contracts as in C14."),
+ "C07": ("PARTIAL: decides usability (k>=1, m>=1, no panic), the cuckoo sizing relations and the fingerprint / quotient-remainder structure for symbolic (n,p); does NOT decide the false-positive frequencies or BloomFilter::len() accuracy (distributions over seeds).",
+         "ln/log2 are sound over-approximating stubs; p >= 2^-40 (cuckoo) / 2^-8 (Bloom), n <= 1024 / 16."),
+ "C09": ("Manku-Motwani invariant proved inductive on the MIR of add (64-bit, symbolic n and width, 3 keys) and the query clauses derived from it with exact dyadic thresholds; the table-size bound (a counting argument over whole histories) is NOT decided.",
+         "HashMap contract over 3 keys (validated natively); division lemma discharged separately; query check for width | 64, thresholds a/64, n < 2^20."),
+ "C10": ("Top-k invariant proved inductive on the MIR of CMSHeap::add (dev profile incl. debug_assert) with HashMap/BTreeSet/Rc contracts and the sketch replaced by the C02 contract; the statement's clauses are discharged from the invariant.",
+         "Proved modulo C02; 3 keys, k <= 2; BTreeSet order contract = TreeEntry::cmp's (n, obj)."),
+ "C11": ("Allocation arithmetic decided for symbolic configurations (all fingerprint widths 2..64); no-growth is asserted in the step harnesses of the other properties (block counts / len / capacity unchanged by every operation incl. failed ones and clear).",
+         "PARTIAL: TDigest centroid count O(delta) not decided (float/asymptotic); LossyCounter exempt by the statement."),
+ "C12": ("Err branches of the insert/union step obligations from arbitrary valid states: observational equality (len + every class count) for the cuckoo filter, raw equality to enc(X) for the quotient filter; 'later operations behave as if it had not happened' follows since the post-state is a pre-state of the next step.",
+         "Raw equality for QF is sufficient, not necessary; cuckoo union at 4+4 slots; engine-M contracts."),
+ "C13": ("Every reachable state is enc(X) for a set X (reference encoder, validated natively for history independence); one insert/query from enc(X) is compared with the specification and enc(X') by CBMC for all X, all elements at (2,2) — exact set semantics incl. absence, Full exactly at capacity.",
+         "(2,2) in quick, (1,2),(1,1) thorough; enc is part of the trusted base (validated on every run)."),
+ "C14": ("One insert/delete/query from an arbitrary valid table decided on the crate's MIR with 64-bit symbolic slots, every hash function and RNG outcome: class counts, len, returned values; panic paths infeasible. Kani cross-check on the compiled code (thorough).",
+         "4 slots quick, 8 thorough; eviction chains <= 2/4 (6 thorough); IntVector bit packing abstracted by the array contract (covered by the Kani cross-check at l=16)."),
+ "C15": ("quantile/cdf shape decided by CBMC (bit-precise IEEE) on every digest of <=2 (thorough 3) centroids with integer weights 1..4 and means -8..8: endpoints, monotonicity, range, mutual consistency, repeatability, empty digest.",
+         "small-integer floats; tolerance 1e-9; scale functions not involved in the read path."),
+ "C16": ("Inductive steps on hook-built states: insert_weighted adds (w, x*w) to the raw totals and updates min/max; merge preserves raw totals, sorts, empties the backlog; count/sum/mean read the totals.",
+         "<=2 centroids + <=2 backlog, K0 only (K1 asin is FFI; K2/K3 ln/exp), small-integer floats (exact sums)."),
+ "C17": ("add_hashed decided against an independent bit-scan specification for all 64-bit hashes and arbitrary registers at b=4; order/repetition independence, add = add_hashed(hash_one), reconstruction.",
+         "b=4 only in Kani (the code is uniform in b)."),
+ "C18": ("One add from an arbitrary valid state (k<=3, i<=2^20 symbolic, every RNG word, sound ln stub): size, distinctness, provenance, prefix order, counters, no panic.",
+         "wmul stub (arbitrary j<range) replaces rand's rejection loop; ln over-approximated."),
+ "C19": ("clear == fresh on raw parts, clone equal and independent (mutate either side), is_empty characterisation — per structure on arbitrary states; TDigest additionally through a probe ScaleFunction observing n.",
+         "raw-part equality is sufficient for observational equality; RNGs are not compared."),
+ "C20": ("The real Deserialize/Serialize impls driven through the serde data model by harness (de)serializers over 18 document shapes with symbolic b and register contents: Err or constructor invariants, then usable; valid documents accepted; round trip equal.",
+         "text formats (serde_json) not encoded; registers up to 17 (thorough 33) entries."),
+}
+
+
 def main():
     hooks_commits = []
     try:
@@ -32,8 +70,8 @@ def main():
                 "evidence_file": "/verif/evidence/%s.json" % pid,
                 "replay_cmd_template": "./check %s --replay {path}" % pid,
                 "engine": P.get("engine", "kani"),
-                "level_claimed": {"category": "model_checking", "text": P.get("level_text", ""), "design_ref": "DESIGN.md §4 " + pid},
-                "level_note": P.get("level_note", ""),
+                "level_claimed": {"category": "model_checking", "text": LEVEL.get(pid, ("", ""))[0], "design_ref": "DESIGN.md §4 " + pid},
+                "level_note": LEVEL.get(pid, ("", ""))[1],
                 "technique": P.get("technique", "bounded model checking of the compiled code (Kani/CBMC, SAT)"),
             })
         else:
